@@ -546,3 +546,476 @@ def check_C07(report, tier, seed, replay=None):
                                  % (e, want, verdict_of(impl), getattr(p, "error", None) if impl.startswith("reject") else ""),
                                  {"property": "C07", "script": hx(text), "text": text.decode("utf-8", "replace"), "removed": e})
     drv.close()
+
+
+# ------------------------------------------------------------------ C18
+
+def offset_to_linecol(text, off):
+    before = text[:off]
+    line = before.count(b"\n") + 1
+    col = off - (before.rfind(b"\n") + 1) + 1
+    return line, col
+
+
+OFFENDERS = [
+    # (category, text of the offending command, offending token, needs-not-loaded extension or None, lexical?)
+    ("lexical", b"% x;", b"%", None, True),
+    ("lexical", b"keep @;", b"@", None, True),
+    ("lexical", b"'a';", b"'a';", None, True),
+    ("unknown-command", b"foo \"a\";", b"foo", None, False),
+    ("unknown-command", b"if frobnicate {}", b"frobnicate", None, False),
+    ("command-extension", b"vacation \"x\";", b"vacation", "vacation", False),
+    ("command-extension", b"if body :text \"a\" {}", b"body", "body", False),
+    ("tag-extension", b"redirect :copy \"a\";", b":copy", "copy", False),
+    ("matchtype-extension", b"if header :regex \"a\" \"b\" {}", b":regex", "regex", False),
+    ("matchtype-extension", b"if address :count \"gt\" \"a\" \"b\" {}", b":count", "relational", False),
+    ("unexpected-tag", b"redirect :bogus \"a\";", b":bogus", None, False),
+    ("unexpected-tag", b"stop :x;", b":x", None, False),
+    ("surplus-string", b"stop \"surplus\";", b"\"surplus\"", None, False),
+    ("surplus-string", b"redirect \"a\" \"surplus\";", b"\"surplus\"", None, False),
+    ("surplus-number", b"discard 10K;", b"10K", None, False),
+    ("test-as-command", b"true;", b"true", None, False),
+    ("test-as-command", b"exists \"a\";", b"exists", None, False),
+    ("nontest-as-test", b"if keep {}", b"keep", None, False),
+    ("nontest-as-test", b"if not stop {}", b"stop", None, False),
+]
+TAILS = [b"", b"\n", b" keep;\n", b"\n}}}} ((( [[[ \"unterminated", b"\r\n/* open comment", b" \xff\xfe garbage %%%", b" stop; discard;\r\n",
+         b"\ntext:\nnever ends"]
+COMMENTS = [b"# caf\xc3\xa9 \xe6\x97\xa5\xe6\x9c\xac\n", b"/* multi\nline \xe2\x82\xac */", b"# plain\r\n", b""]
+
+
+def check_C18(report, tier, seed, replay=None):
+    rng = common.rng_for(seed, "C18")
+    drv = common.Driver("sieve")
+    report.rule = ("(valid multi-line script, insertion point at a command boundary, offending token of each category, tail): "
+                   "categories = bytes that are no token, unknown command, command/tag/match-type whose extension is not loaded, "
+                   "tag the command does not take, surplus string/number, test in command position, non-test in test position; "
+                   "prefix with comments containing multi-byte characters, LF or CRLF; arbitrary tails (valid, garbage, "
+                   "unterminated constructs, invalid UTF-8); expected (line, column, length) computed from the byte offset; plus "
+                   "single-edit mutants for 'never before the first invalidating token' and tail independence")
+    n = 900 if tier == "quick" else 20000
+    for i in range(n):
+        cat, cmd, tok, ext, lexical = OFFENDERS[i % len(OFFENDERS)]
+        needs = set()
+        cmds = []
+        for _ in range(rng.randrange(0, 4)):
+            cmds.append(G.gen_command(rng, needs, 2, True))
+        needs.discard(ext)
+        # avoid loading the extension whose absence is the point
+        if ext is not None:
+            cmds = [c for c in cmds if ext not in _needs_of(c)]
+            needs = set().union(*[_needs_of(c) for c in cmds]) if cmds else set()
+        eol = rng.choice([b"\n", b"\r\n"])
+        k = rng.randrange(0, len(cmds) + 1)
+        parts = []
+        req = G.require_tokens(rng, needs)
+        if req:
+            parts.append(G.render(req))
+        for c in cmds[:k]:
+            parts.append(rng.choice(COMMENTS) + G.render(c))
+        prefix = eol.join(parts) + (eol if parts else b"") + rng.choice(COMMENTS) + rng.choice([b"", b"  ", b"\t"])
+        off = len(prefix) + cmd.index(tok)
+        for tail in rng.sample(TAILS, 3):
+            text = prefix + cmd + tail
+            impl, mod, p, detail = both(drv, text)
+            report.case((text,), True, {"category": cat, "script": text.decode("utf-8", "replace")[:200], "outcome": impl[:80]})
+            report.count("category:" + cat)
+            if impl != mod:
+                report.broke("correspondence C18 (error position / category: model vs parser)",
+                             "script=%r impl=%s model=%s" % (text, impl[:200], mod[:200]), {"script": hx(text)})
+            desc = {"property": "C18", "script": hx(text), "text": text.decode("utf-8", "replace"), "category": cat}
+            if not impl.startswith("reject"):
+                report.violation("script with an offending %s token is not rejected: %r" % (cat, text), desc)
+                continue
+            line, col = offset_to_linecol(text, off)
+            f = impl.split(" ")
+            gl, gc, glen = int(f[3]), int(f[4]), int(f[5])
+            eline = int(p.error.split(":")[0].split(" ")[1])
+            ok = (gl, gc) == (line, col) and eline == line and (lexical or glen == len(tok))
+            if not ok:
+                report.violation("%s: offending token %r starts at line %d column %d (length %d) but error_pos=%r, error line %d in %r"
+                                 % (cat, tok, line, col, len(tok), p.error_pos, eline, text), desc)
+    # other rejections: never before the first invalidating token; independent of what follows
+    m = 700 if tier == "quick" else 15000
+    for i in range(m):
+        toks, needs = G.gen_script(rng, avoid_optpos=True, ncmds=rng.randrange(2, 5))
+        for kind, j, mt in G.mutants(rng, toks, 2):
+            # byte offset of token j in the rendering with single spaces
+            text = G.render(mt)
+            offs, o = [], 0
+            for t in mt:
+                offs.append(o)
+                o += len(t[1].encode("utf-8")) + 1
+            impl, mod, p, detail = both(drv, text)
+            report.case((text, "mut"), True)
+            report.count("category:mutant")
+            if impl != mod:
+                report.broke("correspondence C18 (mutants)", "script=%r impl=%s model=%s" % (text, impl[:160], mod[:160]), {"script": hx(text)})
+            if not impl.startswith("reject"):
+                continue
+            f = impl.split(" ")
+            gl, gc = int(f[3]), int(f[4])
+            lines = text.split(b"\n")
+            got_off = sum(len(x) + 1 for x in lines[:gl - 1]) + gc - 1
+            first_bad = offs[j] if j < len(offs) else len(text)
+            if kind == "swap" or kind == "del":
+                first_bad = offs[j] if j < len(offs) else len(text)
+            # tokens before index j form a prefix of a valid script, so nothing before offs[j] can be wrong
+            desc = {"property": "C18", "script": hx(text), "text": text.decode("utf-8", "replace")}
+            if got_off < min(first_bad, len(text.rstrip())) and not _is_multiline_prefix(mt, j):
+                report.violation("reported position (offset %d) is before the first token that can make the script invalid (offset %d): %r"
+                                 % (got_off, first_bad, text), desc)
+            # tail independence: cut after the failing token and append something else
+            end = got_off + int(f[5])
+            if f[1] not in ("EndExpected", "EndUnfinished", "UnknownToken") and end <= len(text) and text[end:end + 1] in (b" ", b""):
+                alt = text[:end] + b" " + rng.choice(TAILS)
+                impl2, _, _ = I.run_parser(alt)
+                if impl2.split(" ")[:6] != f[:6]:
+                    report.violation("error position depends on what follows the offending token: %r gives %s, %r gives %s"
+                                     % (text, " ".join(f[:6]), alt, impl2[:80]), dict(desc, alt=hx(alt)))
+    drv.close()
+
+
+def _needs_of(cmd_toks):
+    """extensions a generated command needs (recomputed from the frozen table)."""
+    out = set()
+    cur = None
+    for k, v in cmd_toks:
+        if k == "id" and v.lower() in S.SPEC:
+            cur = v.lower()
+            if S.SPEC[cur]["ext"]:
+                out.add(S.SPEC[cur]["ext"])
+        elif k == "tag" and cur:
+            e = frozen_tag_ext(cur, v.lower())
+            if e:
+                out.add(e)
+    return out
+
+
+def _is_multiline_prefix(toks, j):
+    return any(t[0] == "ml" for t in toks[:j + 1])
+
+
+# ------------------------------------------------------------------ C13
+
+class Pristine:
+    def __init__(self):
+        env = dict(os.environ, PYTHONPATH=common.REPO, PYTHONHASHSEED="0", PYTHONWARNINGS="ignore",
+                   PYTHONDONTWRITEBYTECODE="1")
+        self.p = subprocess.Popen([common.PY, os.path.join(common.VERIF, "harness", "pristine_worker.py")],
+                                  stdin=subprocess.PIPE, stdout=subprocess.PIPE, text=True, bufsize=1, env=env)
+
+    def ask(self, job):
+        import json
+        self.p.stdin.write(job + "\n")
+        self.p.stdin.flush()
+        return json.loads(self.p.stdout.readline())
+
+    def close(self):
+        self.p.stdin.close()
+        self.p.wait(timeout=10)
+
+
+def observed(parser, text):
+    a, p, d = I.run_parser(text, "tree", parser=parser)
+    err = p.error if (p is not None and a.startswith("reject")) else ""
+    b = ""
+    if a.startswith("accept"):
+        out = io.StringIO()
+        try:
+            for c in p.result:
+                c.tosieve(target=out)
+            b = "accept " + hx(out.getvalue().encode("utf-8"))
+        except BaseException as e:  # noqa
+            b = "printcrash %r" % (e,)
+    else:
+        b = a
+    return [a, b, err]
+
+
+def check_C13(report, tier, seed, replay=None):
+    from sievelib.parser import Parser
+    rng = common.rng_for(seed, "C13")
+    drv = common.Driver("sieve")
+    pristine = Pristine()
+    report.rule = ("histories of 4-12 scripts (valid, invalid, truncated mid-construct, with differing requires, using "
+                   "extensions the previous script loaded) through one reused Parser and interleaved fresh Parsers, interleaved "
+                   "with FiltersSet jobs; every outcome (verdict, error text, tree, serialisation) is compared with the outcome of "
+                   "the same call in a pristine interpreter (forked from a process that never parsed anything) and with the "
+                   "stateless model; plus the generated inventory of parser/lexer/command state (translator -> Coq obligation)")
+    try:
+        import factory_checks
+        factory_jobs = factory_checks.c13_jobs
+    except Exception:
+        factory_jobs = None
+    n = 60 if tier == "quick" else 1500
+    for h in range(n):
+        reused = Parser()
+        hist = []
+        for k in range(rng.randrange(4, 13)):
+            toks, needs = G.gen_script(rng, avoid_optpos=(k % 3 != 0), ncmds=rng.randrange(1, 4))
+            r = rng.random()
+            if r < 0.25:
+                # drop the require: only valid if state leaks from the previous script
+                body = [t for t in toks]
+                if body and body[0] == ("id", "require"):
+                    idx = body.index((";", ";")) + 1
+                    body = body[idx:]
+                text = G.render(body)
+            elif r < 0.45:
+                text = G.render(toks)
+                text = text[:rng.randrange(0, len(text) + 1)]
+            elif r < 0.6:
+                mts = G.mutants(rng, toks, 1)
+                text = G.render(mts[0][2]) if mts else G.render(toks)
+            else:
+                text = G.render(toks)
+            parser = reused if rng.random() < 0.7 else Parser()
+            got = observed(parser, text)
+            want = pristine.ask("P " + hx(text))
+            mod = drv.ask("parse " + hx(text))
+            hist.append(text)
+            report.case((h, k, text), k > 0, {"history_index": k, "script": text.decode("utf-8", "replace")[:120],
+                                             "reused_parser": parser is reused, "outcome": got[0][:60]})
+            report.count("outcome:" + verdict_of(got[0]))
+            if mod != got[0]:
+                report.broke("correspondence C13 (stateless model vs parser inside a history)",
+                             "history=%r impl=%s model=%s" % (hist, got[0][:160], mod[:160]), {"history": [hx(x) for x in hist]})
+            if got != want:
+                report.violation("outcome depends on history: after %d earlier scripts %r gives %r, a pristine interpreter gives %r"
+                                 % (k, text, [g[:120] for g in got], [w[:120] for w in want]),
+                                 {"property": "C13", "history": [hx(x) for x in hist]})
+                break
+            if factory_jobs is not None and rng.random() < 0.4:
+                factory_jobs(report, rng, pristine, hist)
+    pristine.close()
+    drv.close()
+
+
+# ------------------------------------------------------------------ C20
+
+PTYPES = [("string", "s"), ("number", "n"), ("stringlist", "sl"), (["string", "stringlist"], "sl"), (["string"], "s"),
+          (["number"], "n")]
+RTYPES = [(["string"], "s"), (["number"], "n"), (["string", "stringlist"], "sl")]
+
+
+def gen_definition(rng, idx):
+    """An args_definition of the documented shape (README / test suite): 0-4 optional tag slots, with or without a
+    typed parameter (optionally restricted to a value set or valid only for some of the slot's tags), then 1-3
+    required arguments; action or test; with or without an extension."""
+    d = {"cls": "Xc%dCommand" % idx, "ident": "xc%d" % idx, "kind": rng.choice(["action", "test"]),
+         "ext": rng.choice([None, None, "xext%d" % idx]), "args": []}
+    for s in range(rng.randrange(0, 5)):
+        tags = [":t%d%s" % (s, x) for x in rng.sample("abc", rng.randrange(1, 3))]
+        a = {"name": "opt%d" % s, "type": ["tag"], "values": tags, "required": False}
+        if rng.random() < 0.3:
+            a["write_tag"] = True
+        if rng.random() < 0.6:
+            pt, sem = rng.choice(PTYPES)
+            ex = {"type": pt}
+            if sem == "s" and rng.random() < 0.4:
+                ex["values"] = ['"v1"', '"v2"']
+            if len(tags) > 1 and rng.random() < 0.5:
+                ex["valid_for"] = [tags[0]]
+            if rng.random() < 0.2:
+                ex["required"] = False
+            a["extra_arg"] = ex
+            a["_sem"] = sem
+        d["args"].append(a)
+    for r in range(rng.randrange(1, 4)):
+        rt, sem = rng.choice(RTYPES)
+        d["args"].append({"name": "req%d" % r, "type": rt, "required": True, "_sem": sem})
+    return d
+
+
+def register(d):
+    from sievelib import commands
+    base = commands.ActionCommand if d["kind"] == "action" else commands.TestCommand
+    args = [{k: v for k, v in a.items() if not k.startswith("_")} for a in d["args"]]
+    attrs = {"args_definition": args}
+    if d["ext"]:
+        attrs["extension"] = d["ext"]
+    cls = type(d["cls"], (base,), attrs)
+    commands.add_commands(cls)
+    return cls
+
+
+def def_line(d):
+    """Serialise for the sieve driver (see ocaml/sieve_driver.ml parse_def)."""
+    def lst(v):
+        return "+".join(hx(x.encode()) for x in v) if v else "-"
+    args = []
+    for a in d["args"]:
+        ex = "-"
+        if "extra_arg" in a:
+            e = a["extra_arg"]
+            t = e["type"]
+            et = ("S" + hx(t.encode())) if isinstance(t, str) else ("L" + "+".join(t))
+            ex = "%s^%s^%s" % (et, lst(e.get("values")) if "values" in e else "-", lst(e.get("valid_for")) if "valid_for" in e else "-")
+        args.append("~".join([hx(a["name"].encode()), "+".join(a["type"]), "1" if a.get("required") else "0",
+                              lst(a.get("values")) if "values" in a else "-", "-", "-", ex]))
+    return "def %s %s %s 0 0 0 - %s - %s" % (hx(d["ident"].encode()), hx(d["ident"].encode()), d["kind"],
+                                             hx(d["ext"].encode()) if d["ext"] else "-", ";".join(args) if args else "-")
+
+
+def val_tokens(rng, sem, values=None):
+    if values:
+        return [("str", rng.choice(values))]
+    if sem == "n":
+        return [("num", rng.choice(["1", "20", "3K"]))]
+    if sem == "s":
+        return [("str", rng.choice(['"a"', '"b c"', '"é"']))]
+    return G.gen_string(rng, "sl")
+
+
+def wrong_val_tokens(rng, sem):
+    if sem == "n":
+        return [("str", '"notnumber"')]
+    if sem == "s":
+        return rng.choice([[("num", "5")], [("[", "["), ("str", '"x"'), ("]", "]")]])
+    return [("num", "5")]
+
+
+def uses_of(rng, d, maxn):
+    """(tokens of the command's arguments, expected 'accept'/'reject', reason, expected maps) enumerated from the definition."""
+    opts = [a for a in d["args"] if not a.get("required")]
+    reqs = [a for a in d["args"] if a.get("required")]
+    out = []
+    subsets = list(itertools.chain.from_iterable(itertools.combinations(range(len(opts)), k) for k in range(len(opts) + 1)))
+    rng.shuffle(subsets)
+    for sub in subsets[:maxn]:
+        order = list(sub)
+        rng.shuffle(order)
+        toks, amap, emap = [], {}, {}
+        for s in order:
+            a = opts[s]
+            tag = rng.choice(a["values"])
+            shown = tag.upper() if rng.random() < 0.2 else tag
+            toks.append(("tag", shown))
+            amap[a["name"]] = shown
+            if "extra_arg" in a and ("valid_for" not in a["extra_arg"] or tag in a["extra_arg"]["valid_for"]):
+                pv = val_tokens(rng, a["_sem"], a["extra_arg"].get("values"))
+                toks += pv
+                emap[a["name"]] = pv
+        rtoks = []
+        for a in reqs:
+            pv = val_tokens(rng, a["_sem"])
+            rtoks += pv
+            amap[a["name"]] = pv
+        out.append((toks + rtoks, "accept", "valid use", amap, emap))
+        # single-edit invalid variants
+        v = rng.random()
+        if v < 0.2:
+            out.append((toks + rtoks + [("str", '"surplus"')], "reject", "surplus argument", None, None))
+        elif v < 0.4:
+            out.append(([("tag", ":nosuchtag")] + toks + rtoks, "reject", "tag the command does not take", None, None))
+        elif v < 0.6 and reqs:
+            bad = []
+            k = rng.randrange(len(reqs))
+            for j, a in enumerate(reqs):
+                bad += wrong_val_tokens(rng, a["_sem"]) if j == k else val_tokens(rng, a["_sem"])
+            if not (reqs[k]["_sem"] == "s" and bad and False):
+                out.append((toks + bad, "reject", "ill-typed required argument", None, None))
+        elif v < 0.8 and order:
+            # wrong parameter for a tag that takes one
+            cands = [s for s in order if "extra_arg" in opts[s]]
+            if cands:
+                s = rng.choice(cands)
+                a = opts[s]
+                tag = (a["extra_arg"].get("valid_for") or a["values"])[0]
+                if "values" in a["extra_arg"]:
+                    param = [("str", '"notallowed"')]
+                    why = "parameter outside the value set"
+                else:
+                    param = wrong_val_tokens(rng, a["_sem"])
+                    why = "ill-typed tag parameter"
+                # a list where a number/string is expected etc.; skip combinations that are legal for the required part
+                if not (a["_sem"] == "sl"):
+                    out.append(([("tag", tag)] + param + rtoks, "reject", why, None, None))
+        elif rtoks and reqs:
+            # required arguments before the tags
+            if toks:
+                out.append((rtoks + toks, "reject", "tag after the positional arguments", None, None))
+    return out
+
+
+def canon_expected(v):
+    """expected value projection from generated tokens: string token text or list of item texts."""
+    if isinstance(v, str):
+        return ("s", v)
+    if len(v) == 1:
+        return ("s", v[0][1])
+    return ("l", tuple(t[1] for t in v if t[0] == "str"))
+
+
+def check_C20(report, tier, seed, replay=None):
+    from sievelib import commands
+    rng = common.rng_for(seed, "C20")
+    drv = common.Driver("sieve")
+    report.rule = ("argument definitions from a generator of the documented shape (0-4 optional tag slots, with/without a "
+                   "parameter of type string/number/stringlist written as str or list, optionally restricted to a value set or "
+                   "valid_for a subset of the slot's tags, then 1-3 required arguments; action or test; with or without an "
+                   "extension), each registered with add_commands in the real library and passed to the model; for each: uses "
+                   "enumerated from the definition (tag subsets in random orders, parameter forms, upper-case tags) plus "
+                   "single-edit invalid variants, missing require, unregistered name; verdict, tree (arguments under the "
+                   "defined names) and re-parsed serialisation; non-trivial = definition has at least one optional slot")
+    ndefs = 40 if tier == "quick" else 600
+    for idx in range(ndefs):
+        d = gen_definition(rng, idx)
+        register(d)
+        drv.ask(def_line(d))
+        nopts = sum(1 for a in d["args"] if not a.get("required"))
+        for argtoks, want, why, amap, emap in uses_of(rng, d, 12 if tier == "quick" else 30):
+            pre = G.require_tokens(rng, {d["ext"]}) if d["ext"] else []
+            variants = [("normal", pre)]
+            if d["ext"] and want == "accept" and rng.random() < 0.3:
+                variants.append(("norequire", []))
+            for vname, pre_t in variants:
+                if d["kind"] == "action":
+                    toks = pre_t + [("id", d["ident"])] + argtoks + [(";", ";")]
+                else:
+                    toks = pre_t + [("id", "if"), ("id", d["ident"])] + argtoks + [("{", "{"), ("}", "}")]
+                text = G.render(toks)
+                impl, mod, p, detail = both(drv, text)
+                expect = want if vname == "normal" else "reject"
+                report.case((idx, text), nopts > 0, {"definition": {k: v for k, v in d.items() if k != "args"},
+                                                    "nargs": len(d["args"]), "use": text.decode("utf-8", "replace")[:160],
+                                                    "expected": expect, "why": why if vname == "normal" else "extension not required"})
+                report.count("expected:" + expect)
+                report.count("why:" + (why if vname == "normal" else "extension not required"))
+                if impl != mod:
+                    report.broke("correspondence C20 (registered definition: model vs parser)",
+                                 "def=%r use=%r impl=%s model=%s" % (d, text, impl[:200], mod[:200]), {"definition": repr(d), "script": hx(text)})
+                desc = {"property": "C20", "definition": repr(d), "script": hx(text), "text": text.decode("utf-8", "replace")}
+                vi = verdict_of(impl)
+                if vi != expect:
+                    report.violation("use of registered command: parser says %s, definition says %s (%s): %r" % (vi, expect, why, text), desc)
+                    continue
+                if vi == "accept":
+                    node = p.result[-1] if d["kind"] == "action" else p.result[-1].arguments["test"]
+                    got_a = {k: (("s", v) if isinstance(v, str) else ("l", tuple(v))) for k, v in node.arguments.items()}
+                    got_e = {k: (("s", v) if isinstance(v, str) else ("l", tuple(v))) for k, v in node.extra_arguments.items()}
+                    exp_a = {k: canon_expected(v) for k, v in amap.items()}
+                    exp_e = {k: canon_expected(v) for k, v in emap.items()}
+                    if got_a != exp_a or got_e != exp_e or node.name != d["ident"]:
+                        report.violation("arguments are not recorded under the defined names: expected %r / %r, tree has %r / %r for %r"
+                                         % (exp_a, exp_e, got_a, got_e, text), desc)
+                        continue
+                    pr, _, _ = I.run_parser(text, "print")
+                    if not pr.startswith("accept"):
+                        report.violation("tosieve failed for a registered command: %r" % text, desc)
+                        continue
+                    out = unhx(pr.split(" ", 1)[1])
+                    t1, _, _ = I.run_parser(text, "sorted")
+                    t2, _, d2 = I.run_parser(out, "sorted")
+                    if t1 != t2:
+                        report.violation("serialisation of a registered command does not re-parse to the same tree: %r -> %r (%s)"
+                                         % (text, out, d2), desc)
+        # unregistered names remain unknown
+        text = ("xc%dz \"a\";" % idx).encode()
+        impl, mod, p, _ = both(drv, text)
+        if impl != mod:
+            report.broke("correspondence C20 (unregistered name)", "impl=%s model=%s" % (impl, mod), {"script": hx(text)})
+        if not impl.startswith("reject UnknownCommand"):
+            report.violation("unregistered name is not unknown: %r -> %s" % (text, impl), {"property": "C20", "script": hx(text)})
+    drv.close()
